@@ -163,9 +163,15 @@ fn diff_text(d: &[String]) -> String {
 fn gen_history(rng: &mut Rng, len: usize, bias: u32, undo_redo: u64, flush: u64) -> Vec<Cmd> {
     let mut m = new_model();
     let mut cmds = vec![];
+    // `do ; undo ; redo` probes: right after an operation (more often after one that writes a whole
+    // rectangle: autofill, paste, clears, array formulas) the history undoes and redoes it, so that every
+    // op kind is regularly undone/redone in the very state it ran in, not only some steps later
+    let mut pending: Vec<Cmd> = vec![];
     for _ in 0..len {
         let x = rng.below(100);
-        let cmd = if x < undo_redo {
+        let cmd = if let Some(c) = pending.pop() {
+            c
+        } else if x < undo_redo {
             if rng.chance(3, 5) {
                 Cmd::Undo
             } else {
@@ -179,6 +185,25 @@ fn gen_history(rng: &mut Rng, len: usize, bias: u32, undo_redo: u64, flush: u64)
         match &cmd {
             Cmd::Op(o) => {
                 let _ = apply(&mut m, o);
+                if undo_redo > 0 && pending.is_empty() {
+                    let rect = matches!(
+                        o,
+                        Op::AutoFillRows { .. }
+                            | Op::AutoFillColumns { .. }
+                            | Op::Paste { .. }
+                            | Op::PasteCsv { .. }
+                            | Op::RangeClearContents { .. }
+                            | Op::RangeClearAll { .. }
+                            | Op::SetUserArrayFormula { .. }
+                    );
+                    if rng.chance(if rect { 60 } else { 15 }, 100) {
+                        // popped from the back: Undo first, then (often) Redo
+                        if rng.chance(2, 3) {
+                            pending.push(Cmd::Redo);
+                        }
+                        pending.push(Cmd::Undo);
+                    }
+                }
             }
             Cmd::Undo => {
                 let _ = m.undo();
